@@ -276,7 +276,7 @@ def accept_cells(thorough):
     # signature wrapping inside the ciphertext: the C01 grammar around an assertion-signed start, then encrypted
     n = 0
     start = c01.start_doc('A')
-    for coords, xml in c01.grammar(start, 'Assertion'):
+    for coords, xml in c01.grammar(start, 'Assertion', tids=('fresh', 'same', 'empty')):
         n += 1
         if not thorough and not (coords['s2'] is None or coords['s1'] == coords['s2']):
             continue
@@ -345,7 +345,7 @@ def evaluate_accept(c):
     if c['t'] == 'wrap':
         doc = c.get('doc')
         if doc is None:
-            for coords, xml in c01.grammar(c01.start_doc('A'), 'Assertion'):
+            for coords, xml in c01.grammar(c01.start_doc('A'), 'Assertion', tids=('fresh', 'same', 'empty')):
                 if coords == c['coords']:
                     doc = xml
                     break
